@@ -1,8 +1,6 @@
 package c14
 
 import (
-	"bytes"
-	"encoding/binary"
 	"fmt"
 	"strconv"
 	"strings"
@@ -55,79 +53,19 @@ func (r *runner) runBigInject(c core.Case) {
 	for i := range img {
 		img[i] = byte(a*i + b + cc*(i/256))
 	}
-	orig := append([]byte(nil), img...)
 	tbl := pu(c.Args["tbl"], 64)
 	es := parseBigEnts(c.Args["entries"])
-	entries := toEntries(es)
-	valid, ranges := layoutValid(uint64(n), tbl, es)
-	err := entries.Inject(img, tbl)
-	got, gerr := fit.GetEntries(img)
+	// the same round as for the small images (readers.go), every read-back entrance included,
+	// without the model
+	sf := newScratchFile(img)
+	defer sf.close()
+	res := r.injectRound(img, sf, "", tbl, es, "")
 	vs := "invalid"
-	if valid {
+	if res.valid {
 		vs = "valid"
 	}
-	r.out.Class = fmt.Sprintf("biginject:%s,inject=%s,get=%s", vs, core.ErrClass(err), core.ErrClass(gerr))
+	r.out.Class = fmt.Sprintf("biginject:%s,inject=%s,get=%s", vs, res.injCls, res.getCls)
 	r.out.Key = c.Args["entries"] + "@" + c.Args["tbl"]
-
-	// frame: only pointer, table and data ranges are modified
-	bad := -1
-	if !bytes.Equal(img, orig) {
-		for i := range img {
-			if img[i] != orig[i] {
-				in := false
-				for _, g := range ranges {
-					if uint64(i) >= g.lo && uint64(i) < g.hi {
-						in = true
-						break
-					}
-				}
-				if !in {
-					bad = i
-					break
-				}
-			}
-		}
-	}
-	r.O("inject-frame", "-1", fmt.Sprint(bad))
-	r.O("inject-keeps-size", fmt.Sprint(n), fmt.Sprint(len(img)))
-	if !valid {
-		return
-	}
-	r.O("inject-ok", "ok", core.ErrClass(err))
-	r.O("get-ok", "ok", core.ErrClass(gerr))
-	ptr := binary.LittleEndian.Uint64(img[n-0x40:])
-	r.O("pointer-designates-table", fmt.Sprint(uint64(1<<32)-uint64(n)+tbl), fmt.Sprint(ptr))
-	s, e, rerr := fit.GetHeadersTableRangeFrom(bytes.NewReader(img))
-	r.O("table-range", fmt.Sprintf("ok %d %d", tbl, tbl+16*uint64(len(es))), fmt.Sprintf("%s %d %d", core.ErrClass(rerr), s, e))
-	r.O("entry0-magic-count", fmt.Sprintf("_FIT_    %d", len(es)),
-		fmt.Sprintf("%s %d", img[tbl:tbl+8], int(img[tbl+8])|int(img[tbl+9])<<8|int(img[tbl+10])<<16))
-	// same headers, same order, same Go types, same data bytes (data as length:digest, plus the
-	// first differing position when they differ)
-	if gerr == nil {
-		var want, have []string
-		for _, x := range es {
-			want = append(want, fmt.Sprintf("%d,%s,%d:%d", kindOfTypeField(uint8(x.hdr.TypeAndIsChecksumValid)&0x7f), showHdr(x.hdr), len(x.data), core.FNV(x.data)))
-		}
-		for _, x := range got {
-			bb := x.GetEntryBase()
-			have = append(have, fmt.Sprintf("%d,%s,%d:%d", kindOf(x), showHdr(bb.Headers), len(bb.DataSegmentBytes), core.FNV(bb.DataSegmentBytes)))
-		}
-		r.O("inject-get", strings.Join(want, ";"), strings.Join(have, ";"))
-	}
-	t, terr := fit.GetTable(img)
-	var hs []fit.EntryHeaders
-	for _, x := range es {
-		hs = append(hs, x.hdr)
-	}
-	r.O("get-table", "ok "+showHdrs(hs), core.ErrClass(terr)+" "+showHdrs(t))
-	for i, x := range es {
-		if len(x.data) > 0 {
-			off := uint64(x.hdr.Address) - (uint64(1<<32) - uint64(n))
-			if !bytes.Equal(img[off:off+uint64(len(x.data))], x.data) {
-				r.O("data-stored", "entry data at its offset", fmt.Sprintf("entry %d differs at offset %d", i, off))
-			}
-		}
-	}
 }
 
 // ---- generator
